@@ -7,7 +7,7 @@ globals().update(
         pid="C08",
         props=["JaqalProofs/Props/C08.lean", "JaqalProofs/Props/C08Run.lean", "JaqalProofs/Lemmas/WalkSerialize.lean"],
         targets=["JaqalProofs.Props.C08", "JaqalProofs.Props.C08Run", "JaqalProofs.Lemmas.WalkSerialize"],
-        diffs=[("harness.agents.walk_diff", 1500, 10000), ("harness.agents.c08_history", 600, 600), ("harness.agents.c08_edge", 1000, 600, {"edge_terminates", "edge_accepted", "edge_emulator_visits", "edge_output_list_visits", "edge_own_readouts", "edge_outcome_possible", "edge_scope_float_let", "edge_scope_macro_subcircuit"})],
+        diffs=[("harness.agents.walk_diff", 1500, 10000), ("harness.agents.c08_history", 600, 600), ("harness.agents.c08_edge", 1000, 600, {"edge_terminates", "edge_accepted", "edge_emulator_visits", "edge_output_list_visits", "edge_own_readouts", "edge_outcome_possible", "edge_scope_float_let", "edge_scope_macro_subcircuit"}), ("harness.agents.c08_scale", 250, 250)],
         extra_run=extra_run,
         trusted=[
             STD_TRUST,
